@@ -891,17 +891,21 @@ pub fn plant_ext_inst(rng: &mut Rng, stream: &mut Stream) {
     let name: String = if rng.chance(2, 3) {
         base.to_string()
     } else {
-        let k = rng.usize_below(base.len() + 1);
+        // a third of the near misses keep the whole name and append one or two short pieces (a version suffix, a
+        // multi-byte character); the others cut it somewhere first
+        let k = if rng.chance(1, 3) { base.len() } else { rng.usize_below(base.len() + 1) };
         let mut n = base[..k].to_string();
-        for _ in 0..rng.below(4) {
-            n.push_str(*rng.pick(&["é", "€", "😀", ".", "x", "std", "1"]));
+        let pieces = if k == base.len() { rng.range(1, 2) } else { rng.below(4) };
+        for _ in 0..pieces {
+            n.push_str(*rng.pick(&["é", "€", "😀", "😀", ".", "x", "std", "1", ".100", "日本"]));
         }
-        if rng.chance(1, 3) {
+        if k < base.len() && rng.chance(1, 3) {
             n.push_str(&base[k..]);
         }
         n
     };
-    let number = match rng.below(8) {
+    // boundaries of the two known tables (GLSL.std.450: 1..=81, OpenCL.std: 0..=204) and of the number space
+    let number = match rng.below(12) {
         0 => 0,
         1 => 1,
         2 => 81,
@@ -909,6 +913,9 @@ pub fn plant_ext_inst(rng: &mut Rng, stream: &mut Stream) {
         4 => u32::MAX,
         5 => rng.below(210) as u32,
         6 => 0x8000_0000,
+        7 => 204,
+        8 => 205,
+        9 => 206,
         _ => rng.below(100) as u32,
     };
     let import = MInst {
